@@ -29,6 +29,7 @@ PROP = 'C04'
 MAIN = '__main__'
 HASH_SEEDS = ['0', '1', '2', 'random']
 NAME_POOL = ['app.a', 'app.ab', 'app.abc', 'app.b', 'app.ba', 'app.c', 'app.ca']
+# classes of session-vs-fresh differences (all three were real defects of the pinned tree, repaired by 153b103 / 023f8e8 / f3f812f)
 KNOWN_KEYS = {
 	'failed-load-retry': 'a failed Modules.load leaves the module (and its importers) registered half-loaded; the retried transpile differs from a fresh process',
 	'dep-unloaded': 'Modules.unload of a module that a loaded module imports: the dependant stays registered and its next transpile differs from a fresh process',
@@ -214,12 +215,14 @@ def gen_module(rng: random.Random, name: str, earlier: list[dict[str, Any]], p_b
 		c: dict[str, Any] = {'name': f'{pre}{i}', 'methods': []}
 		for mname in ('g', 'h'):
 			if rng.random() < (0.8 if mname == 'g' else 0.4):
-				meth: dict[str, Any] = {'name': mname, 'call': None, 'bad': False}
+				meth: dict[str, Any] = {'name': mname, 'call': None, 'bad': False, 'lam': False}
 				if callable_imports and rng.random() < 0.6:
 					dep, b = rng.choice(callable_imports)
 					meth['call'] = (dep, b, 'g')
 				elif rng.random() < p_bad * 0.3:
 					meth['bad'] = True
+				elif rng.random() < 0.35:
+					meth['lam'] = True
 				c['methods'].append(meth)
 		mod['classes'].append(c)
 	for i in range(rng.choice([0, 0, 1, 2])):
@@ -259,6 +262,9 @@ def render_source(mod: dict[str, Any]) -> str:
 				lines.append(f"\t\treturn b.{m['call'][2]}(x)")
 			elif m['bad']:
 				lines.append('\t\treturn undefined_name')
+			elif m.get('lam'):
+				# a lambda capturing four names: the order of the C++ capture list must not depend on string hashing
+				lines += ['\t\ty = x', '\t\tz = x', '\t\tw = x', '\t\tf = lambda: y + z + w + x', '\t\treturn f()']
 			else:
 				lines.append('\t\treturn x')
 	for v, ok in mod['vars']:
@@ -280,6 +286,8 @@ def desc_tokens(mod: dict[str, Any]) -> list[str]:
 				ms.append(f"{m['name']}>{m['call'][0]}>{m['call'][1]}>{m['call'][2]}")
 			elif m['bad']:
 				ms.append(f"{m['name']}!")
+			elif m.get('lam'):
+				ms.append(f"{m['name']}~")
 			else:
 				ms.append(m['name'])
 		clss.append(f"{c['name']}/{','.join(ms)}" if ms else c['name'])
@@ -412,7 +420,8 @@ def run_session(ctx: Ctx, pool: list[dict[str, Any]], ops: list[list[Any]], proj
 		kind = op[0]
 		before = ses.loaded()
 		watch = [m for m in before if m not in pre_names]
-		snap = ses.snapshot(watch) if frame_check and kind in ('load', 'transpile', 'resubmit') else {}
+		# every op (also `unload`, whose cascade removes importers): the modules that stay registered must stay untouched
+		snap = ses.snapshot(watch) if frame_check else {}
 		if kind == 'resubmit':
 			lines.append('\t'.join(['resubmit', *desc_tokens(op[1])]))
 			k, payload = ses.resubmit(render_source(op[1]))
@@ -532,12 +541,26 @@ def compare_with_fresh(ctx: Ctx, res: SearchResult, case: dict[str, Any], run: d
 		key = None
 		if r['res'] != fr:
 			key = classify(r)
+			own_seed = os.environ.get('PYTHONHASHSEED', 'random')
+			if key == 'session-vs-fresh' and seeds[0] != own_seed and own_seed != 'random':
+				# the session ran under this process's hash seed: does a fresh process under the SAME seed agree with it?
+				same = fresh_results(ctx, run['proj'], [queries[qid]], own_seed, 1)[qid]
+				if same == r['res']:
+					key = 'hash-seed'
 		res.histogram[key or f"equal:{r['res'][0]}"] = res.histogram.get(key or f"equal:{r['res'][0]}", 0) + 1
 		if key:
-			res.findings.append(Finding(key=key, what=f"op {r['op']} {r['kind']}({r['target']}) in the session gives {short(r['res'])}, a fresh process gives {short(fr)}",
+			res.findings.append(Finding(key=key, what=f"op {r['op']} {r['kind']}({r['target']}) in the session gives {short(r['res'])}, a fresh process (PYTHONHASHSEED={seeds[0]}) gives {short(fr)}{first_diff(r['res'], fr)}",
 				replay={'case': case, 'op_index': r['op'], 'session': r['res'], 'fresh': fr, 'facts': {k: r[k] for k in ('dirty', 'dep_missing', 'registered_before')}}))
 		elif len(res.samples) < 2:
 			res.samples.append({'target': r['target'], 'op': r['op'], 'result': short(r['res'])})
+
+
+def first_diff(a: list[Any], b: list[Any]) -> str:
+	if a[0] == 'text' and b[0] == 'text':
+		for x, y in zip(str(a[1]).splitlines(), str(b[1]).splitlines()):
+			if x != y:
+				return f' (first differing line: {x.strip()!r} vs {y.strip()!r})'
+	return ''
 
 
 def short(res: list[Any]) -> str:
@@ -565,7 +588,7 @@ def norm_case(rec: dict[str, Any]) -> dict[str, Any]:
 	"""JSON round trip turns tuples into lists; normalise to the generator's shapes."""
 	def norm_mod(m: dict[str, Any]) -> dict[str, Any]:
 		return {'name': m['name'], 'ok': bool(m['ok']), 'imports': [tuple(x) for x in m['imports']],
-			'classes': [{'name': c['name'], 'methods': [{'name': x['name'], 'call': tuple(x['call']) if x.get('call') else None, 'bad': bool(x.get('bad'))} for x in c['methods']]} for c in m['classes']],
+			'classes': [{'name': c['name'], 'methods': [{'name': x['name'], 'call': tuple(x['call']) if x.get('call') else None, 'bad': bool(x.get('bad')), 'lam': bool(x.get('lam'))} for x in c['methods']]} for c in m['classes']],
 			'vars': [tuple(x) for x in m['vars']]}
 	pool = [norm_mod(m) for m in rec['pool']]
 	ops = [[o[0], norm_mod(o[1])] if o[0] == 'resubmit' else [o[0], o[1]] for o in rec['ops']]
@@ -633,7 +656,7 @@ def search_frame(ctx: Ctx, cases: list[dict[str, Any]]) -> SearchResult:
 	res = SearchResult('loading one module never changes node classes / symbol objects of another registered module')
 	for case in cases:
 		run = session_run(ctx, case)
-		res.cases += sum(1 for o in case['ops'] if o[0] != 'unload')
+		res.cases += len(case['ops'])
 		for b in run['frame_bad']:
 			res.findings.append(Finding(key='frame', what=f"op {b['op']} changed module {b['module']}: {b['what']}", replay={'case': case, **b}))
 	res.distinct = res.cases
@@ -668,7 +691,7 @@ def search_interactive(ctx: Ctx) -> SearchResult:
 		f3['imports'].append(('app.a', 'Nope'))
 		failing.append(f3)
 		f4 = good_module(rng, MAIN, list(pool))
-		f4['classes'] = [{'name': 'M0', 'methods': [{'name': 'g', 'call': None, 'bad': True}]}]
+		f4['classes'] = [{'name': 'M0', 'methods': [{'name': 'g', 'call': None, 'bad': True, 'lam': False}]}]
 		failing.append(f4)
 		ops: list[list[Any]] = [['resubmit', a], ['resubmit', a]]
 		for f in failing:
@@ -742,26 +765,27 @@ def search_runner(ctx: Ctx) -> SearchResult:
 
 
 STATEMENTS: dict[str, str] = {
-	'inv': 'Coherent (every memo entry = the pure node function on the tree of its entrypoint; every entrypoint / cached AST = parse of the current source; symbol keys only of registered modules; symbol files only keys of their module; every entrypoint registered) holds in a fresh process and after every operation, also the ones that raise half-way',
-	'frame': 'load m (ok or raising) leaves entrypoint + memo tables, symbol table entries, completed flag of every already registered module, all stored symbol files and both stacks unchanged',
-	'unload_clears / unload_frame / unload_exact': 'unload m removes module, entrypoint, completed flag and exactly the keys full_joined(m, l); keys of every other module stay, also of modules whose name has m as string prefix (app.a / app.ab), proved on the key strings',
+	'inv': 'Coherent (every memo entry = the pure node function on the tree of its entrypoint; every entrypoint / cached AST = parse of the current source; symbol keys only of registered modules; symbol files only keys of their module; every entrypoint registered; every dependency of a registered module registered) holds in a fresh process and after every operation, also the ones that raise and roll back',
+	'frame': 'load m (ok, or raising and rolled back) keeps every already registered module registered with its entrypoint + memo tables, symbol table entries, completed flag; stored symbol files and both stacks unchanged',
+	'unload_clears / unload_cascade / unload_minimal / unload_exact': 'unload m removes m; every module that is left is untouched; nothing that is left depends on something removed (cascade complete); a dependency-closed set without m survives (cascade minimal); on the key strings no key full_joined(m, l) is left and the keys of remaining modules stay, also for prefix names app.a / app.ab',
 	'stack_frames': 'a transpile leaves both stacks unchanged when it succeeds and at most its own frame on top when it raises; frames below are never touched or read',
-	'inv_settled': 'Stable = Coherent + every registered module that has a reference table (Good) holds exactly it, its imports are registered, symbol files equal reference tables; preserved by every safe op (unload m safe = no registered module imports m)',
-	'det_partial': 'in every state reachable by safe ops from a stable state, transpile m of a Good module = render(m, tree, reference tables): a function of the current sources only (texts and render errors alike)',
+	'inv_stable': 'Stable = Coherent + every registered module holds exactly its reference table + symbol files are reference tables; preserved by every operation (ok, raising, rolled back) that does not unload the pinned library base',
+	'det_ref': 'in every reachable state transpile m = the reference result of m: render(m, tree, reference tables) for a module with reference table, the reference error (first failing import in load order / parser / ExpandModules) otherwise',
+	'det': 'DETERMINISM over all histories: two processes over the same files with the same current in-memory source answer transpile m identically (texts, render errors, load errors), whatever their histories of load / transpile / unload / resubmit were and whichever operations failed',
 	'unload_load': 'unload m; load m gives m the tree of its source and exactly its reference table, as a load in any other stable state does',
 	'targets_sound / targets': 'every result the Runner produces is the reference result of its target; runs over permuted target lists without failing target produce the same (target, text) pairs',
-	'det_counterexample_failed_load / _dep_unloaded / _lib_closure_first': 'NOT det_statement: three concrete histories on which the model (and the real code, same witnesses in corpus/C04) answers transpile differently from a fresh process',
 }
 PARTIAL: dict[str, Any] = {
-	'proved': 'cache coherence for all histories (inv, frame, unload_*, stack_frames); determinism, unload/load = fresh load and target-order equivariance for Good modules along safe histories (det_partial, unload_load, targets)',
-	'false_on_current_code': 'det_statement (all histories): refuted by det_counterexample_* = known findings failed-load-retry, dep-unloaded, lib-closure-first',
+	'proved': 'cache coherence for all histories (inv, frame, unload_*, stack_frames); determinism for all histories of operations incl. failing ones (det, det_ref), unload/load = fresh load, target-order equivariance — on the model of the repaired Modules (rollback, cascade, re-check)',
+	'remaining_hypotheses': 'World: dotted module names; ExpandModules / renderer read the symbol table only inside the import closure (proved for the descriptor language); acyclic import graph; no file imports the in-memory module; the library modules and their imports are a pinned base that the history does not unload; no RecursionError',
+	'regression': 'the three former counterexamples (failed-load-retry, dep-unloaded, lib-closure-first) are examples proved equal to the fresh result by decide, and corpus cases that must pass on the real code',
 	'correspondence_only': 'that the real Modules/Entrypoints/SymbolDB/processors/transpile stacks behave like the model on generated pools (streams session, session-faulty); the concrete descriptor language (which keys ExpandModules inserts, when the renderer fails)',
-	'search_only': 'PYTHONHASHSEED independence, byte equality of real texts with a fresh process, purity of Jinja/i18n rendering, node classes / symbol object identity of untouched modules',
+	'search_only': 'PYTHONHASHSEED independence (incl. the order of lambda capture lists), byte equality of real texts with a fresh process, purity of Jinja/i18n rendering, node classes / symbol object identity of untouched modules, unloading library modules',
 }
 ASSUMPTIONS: list[str] = [
 	'module names are non-empty and contain no "#" (GoodName; true of dotted Python paths)',
 	'ExpandModules reads the symbol table only at keys of the module, its direct imports and the pinned base (World.local_expand); the renderer depends only on the tables of an import-closed set containing the module and the base (RenderLocal) — both proved for the descriptor language of the driver (desc_local_expand, desc_render_local)',
-	'for det_partial: acyclic import graph (rank), no file imports the in-memory module, the library modules stay loaded (base), and no operation hit RecursionError (model fuel)',
+	'for det: acyclic import graph (rank), no file imports the in-memory module, the library base is not unloaded by the history (unloading library modules is covered by the streams and the search only), and no operation hit RecursionError (model fuel; the cascade of unload has fuel = number of registered modules, which suffices)',
 	'SymbolDB key order inside one module and the `_order_keys` order of symbol files are not modelled (no modelled consumer reads the order); store/restore is modelled as saving / re-inserting the module rows',
 	'per-module DI containers (lang/di.py combine) are not part of this model (C19); all node memo tables of a module are modelled as one memo table per entrypoint',
 ]
